@@ -49,9 +49,16 @@ func matchable(t reflect.Type) bool {
 		reflect.String, reflect.Bool:
 		return true
 	case reflect.Struct:
-		return t == reflect.TypeOf(fn.S1{}) || t == reflect.TypeOf(fn.S2{})
+		return t == reflect.TypeOf(fn.S1{}) || t == reflect.TypeOf(fn.S2{}) || t == reflect.TypeOf(fn.S3{})
 	case reflect.Interface:
 		return t.NumMethod() == 0
+	case reflect.Float64:
+		return true
+	case reflect.Ptr:
+		// matched by pointee: every value is a fresh pointer
+		return t.Elem().Kind() == reflect.Int || t.Elem() == reflect.TypeOf(fn.S3{})
+	case reflect.Slice:
+		return t.Elem().Kind() == reflect.Uint8
 	}
 	return false
 }
@@ -120,7 +127,22 @@ func domain(r *rng.R, t reflect.Type) interface{} {
 		if t == reflect.TypeOf(fn.S1{}) {
 			return fn.S1{A: r.Intn(3)}
 		}
+		if t == reflect.TypeOf(fn.S3{}) {
+			return fn.S3{A: r.Intn(2), B: float64(r.Intn(2)) / 2, C: []string{"", "x"}[r.Intn(2)]}
+		}
 		return fn.S2{A: r.Intn(2), B: r.Intn(2)}
+	case reflect.Float64:
+		return reflect.ValueOf(float64(r.Intn(4)) / 2).Convert(t).Interface()
+	case reflect.Ptr:
+		// a fresh pointer every time: equal pointees, never the same address
+		if t.Elem().Kind() == reflect.Int {
+			p := reflect.New(t.Elem())
+			p.Elem().SetInt(int64(r.Intn(3)))
+			return p.Interface()
+		}
+		return &fn.S3{A: r.Intn(2), B: float64(r.Intn(2)) / 2, C: []string{"", "x"}[r.Intn(2)]}
+	case reflect.Slice:
+		return reflect.ValueOf([][]byte{{1}, {2}, {1, 2}}[r.Intn(3)]).Convert(t).Interface()
 	case reflect.Interface:
 		return r.Intn(4) // ints only: cross-kind equality is C18's business
 	default:
